@@ -80,6 +80,9 @@ PROGRAMS = [
     "with(a)as b: pass\nx = [i for i in(b)for j in k if(c)]\ny = a if((q))else c\nz = not(p)\ndel (d, e), [g]",
     # 58: identifiers whose source spelling differs in length from the normalized name the AST holds (NFKC: 'ﬁ' is 'fi', 'ℌ' is 'H')
     "def f(ﬁ, b: ℌ = ﬁ):\n    import m as ﬁ, n.ﬂ as o\n    try: pass\n    except E as ﬁ: pass\n    return ﬁ.ﬂ(ℌ=1)\ntype X[ﬁ: int] = ﬁ",
+    # 59: tab indentation (nested), a form feed between statements, trailing blanks, whitespace-only and empty lines inside blocks,
+    # eight-column and two-column indentation, final newline
+    "if a:\n\tb = 1  \n\n\tif c:\n\t\td = [e,\n\t\t     f]\t# t\n\t  \n\tg = 2\n\x0c\nclass K:\n        x = 1\n\n        def m(s): return s \ndef h():\n  \'\'\'d\'\'\'\n  return 1\n",
 ]
 
 for _p in PROGRAMS:
